@@ -152,7 +152,13 @@ func c09(c *core.Ctx) {
 			n := int(i)
 			for k := 0; k < reps; k++ {
 				m := c09Preceding(r)
-				c09Try(c, m, fmt.Sprintf("%s(%dB)", ts.name, n), ts.mk(r.Bytes(n)), n <= ts.limit, "size-overflow", ts.typ)
+				v := r.Bytes(n)
+				if k%2 == 1 && n >= 2 {
+					// delimiters a text convention might want to strip before counting: the limit counts bytes
+					pair := [][2]byte{{'"', '"'}, {'\'', '\''}, {' ', ' '}, {'<', '>'}, {0, 0}, {'\r', '\n'}, {'[', ']'}, {'\t', ' '}}[(k/2)%8]
+					v[0], v[n-1] = pair[0], pair[1]
+				}
+				c09Try(c, m, fmt.Sprintf("%s(%dB)", ts.name, n), ts.mk(v), n <= ts.limit, "size-overflow", ts.typ)
 			}
 			c.Distinct(uint64(n) | uint64(ts.typ)<<20)
 		})
@@ -288,6 +294,9 @@ func c09(c *core.Ctx) {
 		n := int(i) / len(ips)
 		for k := 0; k < reps*4; k++ {
 			m := c09Preceding(r)
+			if k%3 == 2 {
+				m.TransactionID = r.TID() // assigned, not yet written out: a refused setter does not write it out either
+			}
 			var ip net.IP
 			if n > 0 || r.Bool() {
 				ip = net.IP(r.Bytes(n))
